@@ -278,6 +278,11 @@ class SymEval:
             return self.norm_of(self.ev(args[0]))
         if ch in ("torch.matmul", "torch.bmm", "torch.mm") and len(args) == 2:
             return self.matmul(self.ev(args[0]), self.ev(args[1]))
+        if ch == "torch.index_select" and e.keywords and len(args) < 3:
+            kw = {k.arg: k.value for k in e.keywords}
+            full = list(args) + [kw[n] for n in ("input", "dim", "index")[len(args):] if n in kw]
+            if len(full) == 3 and len(full) == len(args) + len(kw):
+                args = full
         if ch == "torch.index_select" and len(args) == 3:
             base = self.ev(args[0])
             idx = args[2]
